@@ -136,12 +136,130 @@ func structure(repo string) (string, error) {
 			}
 		}
 	}
+	// ---- result.RemovePrivateHops: two nested range loops over all runs and all hops, whose body is exactly
+	// `if hop.IPAddress.IsPrivate() { r.Traceroute.Runs[i].Hops[j] = &TracerouteHop{TTL: …} }`
+	redactShape, redactCond, redactKept := false, "?", []string{}
+	{
+		fset2 := token.NewFileSet()
+		f2, err := parser.ParseFile(fset2, filepath.Join(repo, "result/result.go"), nil, 0)
+		if err != nil {
+			return "", err
+		}
+		for _, d := range f2.Decls {
+			fd, ok := d.(*ast.FuncDecl)
+			if !ok || fd.Name.Name != "RemovePrivateHops" || fd.Body == nil || len(fd.Body.List) != 1 {
+				continue
+			}
+			outer, ok := fd.Body.List[0].(*ast.RangeStmt)
+			if !ok || !strings.HasSuffix(exprString(outer.X), ".Traceroute.Runs") || len(outer.Body.List) != 1 {
+				continue
+			}
+			inner, ok := outer.Body.List[0].(*ast.RangeStmt)
+			if !ok || !strings.HasSuffix(exprString(inner.X), ".Hops") || len(inner.Body.List) != 1 {
+				continue
+			}
+			ifs, ok := inner.Body.List[0].(*ast.IfStmt)
+			if !ok || ifs.Else != nil || ifs.Init != nil || len(ifs.Body.List) != 1 {
+				continue
+			}
+			hopVar := exprString(inner.Value)
+			redactCond = strings.Replace(exprString(ifs.Cond), hopVar+".", "hop.", 1)
+			as, ok := ifs.Body.List[0].(*ast.AssignStmt)
+			if !ok || len(as.Rhs) != 1 {
+				continue
+			}
+			var lit *ast.CompositeLit
+			if u, ok := as.Rhs[0].(*ast.UnaryExpr); ok {
+				lit, _ = u.X.(*ast.CompositeLit)
+			}
+			if lit == nil || exprString(lit.Type) != "TracerouteHop" {
+				continue
+			}
+			for _, el := range lit.Elts {
+				if kv, ok := el.(*ast.KeyValueExpr); ok {
+					redactKept = append(redactKept, exprString(kv.Key))
+				}
+			}
+			redactShape = true
+		}
+	}
+	// ---- RunTraceroute: the post-processing calls on the result, in source order, each with its guard
+	var pipe []string
+	errNil := false
+	{
+		fset3 := token.NewFileSet()
+		f3, err := parser.ParseFile(fset3, filepath.Join(repo, "traceroute/traceroute.go"), nil, 0)
+		if err != nil {
+			return "", err
+		}
+		step := func(call *ast.CallExpr, guard string) {
+			name := exprString(call.Fun)
+			if !strings.HasPrefix(name, "results.") {
+				return
+			}
+			ps := "PS_Other"
+			switch strings.TrimPrefix(name, "results.") {
+			case "EnrichWithReverseDns":
+				ps = "PS_Enrich"
+			case "Normalize":
+				ps = "PS_Normalize"
+			case "RemovePrivateHops":
+				ps = "PS_Redact"
+			}
+			pipe = append(pipe, "("+guard+", "+ps+")")
+		}
+		for _, d := range f3.Decls {
+			fd, ok := d.(*ast.FuncDecl)
+			if !ok || fd.Name.Name != "RunTraceroute" || fd.Body == nil {
+				continue
+			}
+			for _, st := range fd.Body.List {
+				switch x := st.(type) {
+				case *ast.ExprStmt:
+					if c, ok := x.X.(*ast.CallExpr); ok {
+						step(c, "G_None")
+					}
+				case *ast.IfStmt:
+					if isErrNotNil(x.Cond) && len(x.Body.List) == 1 {
+						if r, ok := x.Body.List[0].(*ast.ReturnStmt); ok && len(r.Results) == 2 && exprString(r.Results[0]) == "nil" && exprString(r.Results[1]) == "err" {
+							errNil = true
+						}
+						continue
+					}
+					g := "G_Other"
+					switch exprString(x.Cond) {
+					case "params.ReverseDns":
+						g = "G_ReverseDns"
+					case "params.SkipPrivateHops":
+						g = "G_SkipPrivate"
+					}
+					if x.Else != nil {
+						g = "G_Other"
+					}
+					for _, s2 := range x.Body.List {
+						if es, ok := s2.(*ast.ExprStmt); ok {
+							if c, ok := es.X.(*ast.CallExpr); ok {
+								step(c, g)
+							}
+						}
+					}
+				}
+			}
+		}
+	}
 	var b strings.Builder
-	b.WriteString("(** GENERATED on every run by tools/goextract (structure.go) from /repo/sack/sack_driver.go.  Do not edit. *)\n")
-	b.WriteString("From Coq Require Import ZArith.\nOpen Scope Z_scope.\n\n")
+	b.WriteString("(** GENERATED on every run by tools/goextract (structure.go) from /repo/sack/sack_driver.go, result/result.go and\n    traceroute/traceroute.go.  Do not edit. *)\n")
+	b.WriteString("From Coq Require Import ZArith List.\nFrom TR Require Import Lib.Shapes.\nImport ListNotations.\nOpen Scope Z_scope.\n\n")
 	fmt.Fprintf(&b, "(** ReadHandshake: read deadlines armed before the read loop, whether the loop (or anything it calls) re-arms one, and the timeout *)\n")
 	fmt.Fprintf(&b, "Definition sack_handshake_deadlines_before_loop : Z := %d.\n", before)
 	fmt.Fprintf(&b, "Definition sack_handshake_deadline_in_loop : bool := %v.\n", inLoop)
 	fmt.Fprintf(&b, "Definition sack_handshake_timeout_ns : Z := %d.\n", timeout)
+	fmt.Fprintf(&b, "\n(** RemovePrivateHops: both loops visit every run and every hop and the body is the single conditional replacement;\n    the condition is hop.IPAddress.IsPrivate(); the replacement keeps exactly the TTL *)\n")
+	fmt.Fprintf(&b, "Definition redact_visits_every_hop : bool := %v.\n", redactShape)
+	fmt.Fprintf(&b, "Definition redact_condition_is_private_address : bool := %v.\n", redactCond == "hop.IPAddress.IsPrivate()")
+	fmt.Fprintf(&b, "Definition redact_keeps_only_ttl : bool := %v.\n", len(redactKept) == 1 && redactKept[0] == "TTL")
+	fmt.Fprintf(&b, "\n(** RunTraceroute: a failed multi-query run returns (nil, err); then, in this order, the post-processing steps with their guards *)\n")
+	fmt.Fprintf(&b, "Definition run_error_returns_no_result : bool := %v.\n", errNil)
+	fmt.Fprintf(&b, "Definition run_pipeline_order : list (pguard * pstep) := [%s].\n", strings.Join(pipe, "; "))
 	return b.String(), nil
 }
